@@ -391,6 +391,46 @@ def check_greedy(prog: Program, res: Result) -> None:
     _match.check_greedy(prog, res, "C15-greedy")
 
 
+def check_ground_truth_pool(prog: Program, res: Result) -> None:
+    """(a) The similarity treats a keypoint as missing exactly when it is NaN: every place that turns an instance into an
+    array for scoring uses `.numpy()` as it is - `invisible_as_nan=False` would hand the stored coordinates of invisible
+    nodes to compute_oks as if they were visible.  (b) With user_labels_only, find_frame_pairs narrows every ground-truth
+    frame to its user instances (match_instances / get_instances read frame.instances): a flag that only FILTERS frames lets
+    predicted instances stored in a ground-truth frame compete as ground truth."""
+    R = "C15-pair"
+    n = 0
+    for fi in prog.all_functions():
+        if not fi.module.name.startswith(("sleap_nn.evaluation", "sleap_nn.tracking")):
+            continue
+        for c in walk_function(fi.node):
+            if isinstance(c, ast.Call) and isinstance(c.func, ast.Attribute) and c.func.attr == "numpy":
+                n += 1
+                bad = [k for k in c.keywords if k.arg == "invisible_as_nan" and astq.const_value(k.value) is not True]
+                if bad:
+                    res.touch(fi)
+                res.ob(R, not bad, fi.qualname, f"{short(c, 40)}: invisible nodes stay NaN",
+                       f"`{short(c, 60)}` asks for the stored coordinates of invisible nodes: the scoring code recognises a missing keypoint by NaN only, so hidden nodes are "
+                       "scored as if they were visible", f"{fi.module.relpath}:{c.lineno}")
+    ff = prog.func(f"{EV}:find_frame_pairs")
+    res.touch(ff)
+    if "user_labels_only" in ff.params:
+        narrowed = False
+        for g in walk_function(ff.node):
+            if isinstance(g, ast.If) and "user_labels_only" in astq.names_in(g.test):
+                arm = g.orelse if (isinstance(g.test, ast.UnaryOp) and isinstance(g.test.op, ast.Not)) else g.body
+                for st in [x for b in arm for x in ast.walk(b)]:
+                    if isinstance(st, ast.Assign) and len(st.targets) == 1 and isinstance(st.targets[0], ast.Attribute) and st.targets[0].attr == "instances":
+                        vx = astq.expand_at(ff.node, st.value, st, keep=sorted(astq.names_in(st.targets[0].value)))
+                        if f"{norm(st.targets[0].value)}.user_instances" in norm(vx):     # directly, through a local, or a copy (list(...))
+                            narrowed = True
+        gi = prog.func(f"{EV}:get_instances")
+        narrowed = narrowed or "user" in " ".join(norm(x) for x in walk_function(gi.node) if isinstance(x, ast.Attribute))
+        res.ob(R, narrowed, ff.qualname, "user_labels_only narrows ground-truth frames to their user instances",
+               "find_frame_pairs consults user_labels_only only to FILTER frames: match_instances still pools every instance of a ground-truth frame, so predicted instances stored "
+               "in it are matched (or counted as missed) as ground truth", ff.where)
+    res.count(R, 0)
+
+
 def check(prog: Program, res: Result) -> None:
     from . import _state
     _state.check_no_memo(prog, res, "C15-pure", ["sleap_nn.evaluation", "sleap_nn.tracking.utils"], floor=10)
@@ -405,6 +445,7 @@ def check(prog: Program, res: Result) -> None:
     check_shape(prog, res)
     check_range(prog, res)
     check_pair(prog, res)
+    check_ground_truth_pool(prog, res)
     # conservation across frames: every frame pair contributes its matches AND its misses (a skipped pair loses the
     # ground-truth instances of that frame from both lists)
     from . import _batch
